@@ -134,6 +134,20 @@ fn subjects(cfg: &FamCfg, quick: bool) -> Vec<Subject> {
             v.push(Subject { parts: vec![AG::Lines(vec![vec![a, b]])], g: Geometry::LineString(ls(&[a, b])), fam: "LS2" });
         }
     }
+    // a valid NESTED multipolygon: a frame and an island inside its hole (members of a MultiPolygon need not be side by side), both member orders,
+    // also inside a collection
+    {
+        let frame = Poly { shell: vec![(-1, -1), (4, -1), (4, 4), (-1, 4)], holes: vec![vec![(0, 0), (3, 0), (3, 3), (0, 3)]] };
+        for island in [vec![(1, 1), (2, 1), (2, 2), (1, 2)], vec![(1, 1), (2, 1), (1, 2)], vec![(1, 2), (2, 1), (2, 2)]] {
+            let isl = Poly { shell: island, holes: vec![] };
+            for order in 0..2 {
+                let ps = if order == 0 { vec![frame.clone(), isl.clone()] } else { vec![isl.clone(), frame.clone()] };
+                let mp = Geometry::MultiPolygon(geo::MultiPolygon(ps.iter().map(poly).collect()));
+                v.push(Subject { parts: vec![AG::Polys(ps.clone())], g: mp.clone(), fam: "NESTED" });
+                v.push(Subject { parts: vec![AG::Polys(ps.clone())], g: Geometry::GeometryCollection(GeometryCollection(vec![mp])), fam: "NESTED" });
+            }
+        }
+    }
     // mixed collections
     let pt = AG::Pts(vec![(0, 2)]);
     let ln = AG::Lines(vec![vec![(2, 0), (2, 2)]]);
@@ -309,6 +323,40 @@ pub fn run(mut run: Run) -> i32 {
                 };
                 if !ok {
                     acc.viol(format!("closest_point of a MultiPoint<f32> at magnitude {} is not the nearest member", name), idx, || json!({"members": format!("{:?}", members), "query": format!("{:?}", q), "scale": name, "got": format!("{:?}", got)}));
+                }
+            }
+        });
+    }
+    // geometry of tiny extent (2^-600: squared lengths underflow, lengths do not) queried from ordinary distances: never Indeterminate, and the
+    // returned point is a point of the geometry, i.e. within the geometry's extent of the origin
+    {
+        use geo::{Line, Rect, Triangle};
+        let g3t = grid(3);
+        let qs: Vec<(f64, f64)> = vec![(1.0, 0.0), (0.0, -2.0), (3.0, 4.0), (-0.5, 0.25)];
+        let sc = 2f64.powi(-600);
+        let nt = g3t.len();
+        run.stage("closest-point-tiny-geometry", nt * nt * nt * qs.len(), |idx, acc| {
+            let (t, qi) = (idx / qs.len(), idx % qs.len());
+            let (a, b, c3) = (g3t[t / (nt * nt)], g3t[(t / nt) % nt], g3t[t % nt]);
+            if a == b || area2(&[a, b, c3]) == 0 {
+                return;
+            }
+            let f = |p: IP| Coord { x: p.0 as f64 * sc, y: p.1 as f64 * sc };
+            let q = Point::new(qs[qi].0, qs[qi].1);
+            let dq = (q.x() * q.x() + q.y() * q.y()).sqrt();
+            let geoms: Vec<(&str, Geometry<f64>)> = vec![
+                ("Line", Geometry::Line(Line::new(f(a), f(b)))),
+                ("LineString", Geometry::LineString(LineString::new(vec![f(a), f(b), f(c3)]))),
+                ("Triangle", Geometry::Triangle(Triangle(f(a), f(b), f(c3)))),
+                ("Polygon", Geometry::Polygon(Polygon::new(LineString::new(vec![f(a), f(b), f(c3), f(a)]), vec![]))),
+                ("Rect", Geometry::Rect(Rect::new(f(a), f((a.0 + 1, a.1 + 2))))),
+            ];
+            acc.class("tiny geometry".into());
+            for (name, g) in geoms {
+                acc.evals += 1;
+                match guard(|| g.closest_point(&q)) {
+                    Ok(Closest::SinglePoint(r)) if r.x().abs() <= 4.0 * sc && r.y().abs() <= 4.0 * sc && (((r.x() - q.x()).powi(2) + (r.y() - q.y()).powi(2)).sqrt() - dq).abs() <= 1e-9 => {}
+                    other => acc.viol(format!("closest_point of a {} of extent 2^-600 from an ordinary distance is not a point of it", name), idx, || json!({"geometry": format!("{:?}", g), "query": format!("{:?}", q), "got": format!("{:?}", other)})),
                 }
             }
         });
